@@ -233,11 +233,16 @@ func (s *Stream) Read(buffer []byte) (int, error) {
 	}
 	s.receiveBufferLock.Unlock()
 
-	// Send a window update corresponding to the amount that we read.
-	select {
-	case s.multiplexer.enqueueWindowIncrement <- windowIncrement{s.identifier, uint64(count)}:
-	case <-s.multiplexer.closed:
-		return count, ErrMultiplexerClosed
+	// Send a window update corresponding to the amount that we read. If we
+	// didn't read anything (e.g. due to a zero-length buffer), then there's no
+	// window capacity to return, and a zero-valued increment would be treated
+	// as a protocol violation by the remote.
+	if count > 0 {
+		select {
+		case s.multiplexer.enqueueWindowIncrement <- windowIncrement{s.identifier, uint64(count)}:
+		case <-s.multiplexer.closed:
+			return count, ErrMultiplexerClosed
+		}
 	}
 
 	// Success.
